@@ -393,6 +393,258 @@ end Ach.Merge
 
 namespace Ach.Merge
 
+/-! ## the dollar limit (same loop, exact counter) -/
+
+def sumAmt (es : List Entry) : Int := (es.map (·.amount)).sum
+
+theorem foldl_amount (es : List Entry) (a : Int) : es.foldl (fun acc e => acc + e.amount) a = a + sumAmt es := by
+  induction es generalizing a with
+  | nil => simp [sumAmt]
+  | cons e es ih => simp only [List.foldl_cons, ih, sumAmt, List.map_cons, List.sum_cons]; omega
+
+theorem wfileDollars_eq (f : WFile) : wfileDollars f = sumAmt (wfileEntries f) := by
+  simp [wfileDollars, foldl_amount]
+
+theorem sumAmt_append (a b : List Entry) : sumAmt (a ++ b) = sumAmt a + sumAmt b := by
+  simp [sumAmt, List.sum_append]
+
+/-- dollars held by the file being assembled -/
+def curDollars (s : CState) : Int := sumAmt (wfileEntries s.file) + sumAmt s.batch
+
+/-- a written file respects the dollar limit, or holds a single entry (that alone exceeds it) -/
+def DGood (c : Cond) (f : WFile) : Prop :=
+  c.maxDollars ≤ 0 ∨ wfileDollars f ≤ c.maxDollars ∨ (wfileEntries f).length = 1
+
+structure DInv (c : Cond) (s : CState) : Prop where
+  out : ∀ f ∈ s.out, DGood c f
+  cnt : s.dollars = curDollars s
+  cur : c.maxDollars ≤ 0 ∨ curDollars s ≤ c.maxDollars ∨ nEntries s = 1
+
+theorem closeBatch_dollars (k : HKey) (s : CState) : curDollars (closeBatch k s) = curDollars s ∧
+    nEntries (closeBatch k s) = nEntries s ∧ (closeBatch k s).out = s.out ∧ (closeBatch k s).dollars = s.dollars := by
+  unfold closeBatch
+  by_cases h : s.batch.isEmpty = true
+  · simp [h]
+  · simp only [h, if_false, Bool.false_eq_true]
+    refine ⟨?_, ?_, by simp, by simp⟩
+    · simp [curDollars, wfileEntries_append, wfileEntries, sumAmt_append, sumAmt]
+    · simp [nEntries, wfileEntries_append, wfileEntries]
+      try omega
+
+theorem closeFile_dgood (c : Cond) (s : CState) (hb : s.batch = []) (ho : ∀ f ∈ s.out, DGood c f)
+    (hc : c.maxDollars ≤ 0 ∨ curDollars s ≤ c.maxDollars ∨ nEntries s = 1) :
+    ∀ f ∈ (closeFile s).out, DGood c f := by
+  unfold closeFile
+  by_cases h : s.file.isEmpty = true
+  · simpa [h] using ho
+  · simp only [h, if_false, Bool.false_eq_true]
+    intro f hf
+    rcases List.mem_append.1 hf with hf | hf
+    · exact ho f hf
+    · simp at hf; subst hf
+      rcases hc with h0 | h1 | h2
+      · exact Or.inl h0
+      · right; left
+        simpa [curDollars, hb, wfileDollars_eq, sumAmt] using h1
+      · right; right
+        simpa [nEntries, hb] using h2
+
+theorem closeBatch_dinv (c : Cond) (k : HKey) (s : CState) (h : DInv c s) : DInv c (closeBatch k s) := by
+  obtain ⟨r1, r2, r3, r4⟩ := closeBatch_dollars k s
+  exact ⟨by rw [r3]; exact h.out, by rw [r4, r1]; exact h.cnt, by rw [r1, r2]; exact h.cur⟩
+
+theorem stepEntry_dinv (c : Cond) (k : HKey) (s : CState) (e : Entry) (h : DInv c s) : DInv c (stepEntry c k s e) := by
+  unfold stepEntry
+  simp only
+  by_cases hov : ((decide (c.maxLines > 0) && decide (s.lines + e.lines > c.maxLines)) ||
+      (decide (c.maxDollars > 0) && decide (s.dollars + e.amount > c.maxDollars))) = true
+  · simp only [hov, if_true]
+    have hcb := closeBatch_dinv c k s h
+    have hgood := closeFile_dgood c (closeBatch k s) (closeBatch_batch k s) hcb.out hcb.cur
+    have hfile : (closeFile (closeBatch k s)).file = [] := by
+      unfold closeFile; split
+      · rename_i hh; simpa using hh
+      · rfl
+    have hbatch : (closeFile (closeBatch k s)).batch = [] := by rw [closeFile_batch]; exact closeBatch_batch k s
+    refine ⟨by simpa using hgood, ?_, ?_⟩
+    · simp [curDollars, hfile, hbatch, wfileEntries, sumAmt]
+    · right; right; simp [nEntries, hfile, hbatch, wfileEntries]
+  · simp only [hov, if_false, Bool.false_eq_true]
+    have hnov : ¬ (c.maxDollars > 0 ∧ s.dollars + e.amount > c.maxDollars) := by
+      intro ⟨a, b⟩; apply hov; simp [a, b]
+    have hcur : curDollars { s with batch := s.batch ++ [e], lines := s.lines + e.lines, dollars := s.dollars + e.amount } =
+        curDollars s + e.amount := by
+      simp [curDollars, sumAmt_append, sumAmt]; omega
+    refine ⟨h.out, ?_, ?_⟩
+    · show s.dollars + e.amount = _
+      rw [hcur, h.cnt]
+    · by_cases h0 : c.maxDollars ≤ 0
+      · exact Or.inl h0
+      · right; left
+        rw [hcur, ← h.cnt]
+        have : ¬ (s.dollars + e.amount > c.maxDollars) := fun hb => hnov ⟨by omega, hb⟩
+        omega
+
+theorem foldl_stepEntry_dinv (c : Cond) (k : HKey) : ∀ (es : List Entry) (s : CState), DInv c s →
+    DInv c (es.foldl (stepEntry c k) s)
+  | [], _, h => h
+  | e :: es, s, h => by rw [List.foldl_cons]; exact foldl_stepEntry_dinv c k es _ (stepEntry_dinv c k s e h)
+
+theorem stepBatch_dinv (c : Cond) (s : CState) (b : OutBatch) (h : DInv c s) : DInv c (stepBatch c s b) := by
+  unfold stepBatch
+  have hin : DInv c { s with lines := s.lines + 2 } := ⟨h.out, h.cnt, h.cur⟩
+  exact closeBatch_dinv c b.key _ (foldl_stepEntry_dinv c b.key b.entries _ hin)
+
+theorem foldl_stepBatch_dinv (c : Cond) : ∀ (bs : List OutBatch) (s : CState), DInv c s → DInv c (bs.foldl (stepBatch c) s)
+  | [], _, h => h
+  | b :: bs, s, h => by rw [List.foldl_cons]; exact foldl_stepBatch_dinv c bs _ (stepBatch_dinv c s b h)
+
+theorem foldl_stepBatch_nobatch (c : Cond) : ∀ (bs : List OutBatch) (s : CState), s.batch = [] → (bs.foldl (stepBatch c) s).batch = []
+  | [], _, h => h
+  | b :: bs, s, _ => by rw [List.foldl_cons]; exact foldl_stepBatch_nobatch c bs _ (stepBatch_batch c s b)
+
+/-- **merge_dollars_bounded**: the entry amounts of every file written for a route sum to at most `MaxDollarAmount`
+(when that is positive — `convertToFiles` forces 0 and anything above the Nacha limit to the Nacha limit), unless the
+file holds a single entry -/
+theorem convertOne_dollars_bounded (c : Cond) (o : OutFile) : ∀ f ∈ convertOne c o, DGood c f := by
+  unfold convertOne
+  have h0 : DInv c ⟨[], [], [], 2, 0⟩ := by
+    refine ⟨by simp, by simp [curDollars, wfileEntries, sumAmt], ?_⟩
+    by_cases hm : c.maxDollars ≤ 0
+    · exact Or.inl hm
+    · right; left; simp [curDollars, wfileEntries, sumAmt]; omega
+  have h := foldl_stepBatch_dinv c o.batches _ h0
+  exact closeFile_dgood c _ (foldl_stepBatch_nobatch c o.batches _ rfl) h.out h.cur
+
+end Ach.Merge
+
+namespace Ach.Merge
+
+/-! ## when no limit binds, a route's entries end up in one file -/
+
+/-- what `currentFileLineCount` reaches if nothing overflows: 2, plus 2 per accumulated batch (also one without
+entries), plus the lines of every entry -/
+def countedLines (bs : List OutBatch) : Nat := (bs.map (fun b => 2 + sumLines b.entries)).sum
+def totalAmt (bs : List OutBatch) : Int := (bs.map (fun b => sumAmt b.entries)).sum
+
+/-- nothing has been split off so far and what is still to come fits under both limits -/
+structure NoSplit (c : Cond) (s : CState) (rl : Nat) (ra : Int) : Prop where
+  out : s.out = []
+  lines : c.maxLines = 0 ∨ s.lines + rl ≤ c.maxLines
+  dollars : c.maxDollars ≤ 0 ∨ s.dollars + ra ≤ c.maxDollars
+
+theorem stepEntry_nosplit (c : Cond) (k : HKey) (s : CState) (e : Entry) (rl : Nat) (ra : Int) (hra : 0 ≤ ra)
+    (h : NoSplit c s (e.lines + rl) (e.amount + ra)) : NoSplit c (stepEntry c k s e) rl ra := by
+  unfold stepEntry
+  simp only
+  have hov : ((decide (c.maxLines > 0) && decide (s.lines + e.lines > c.maxLines)) ||
+      (decide (c.maxDollars > 0) && decide (s.dollars + e.amount > c.maxDollars))) = false := by
+    have h1 : ¬ (c.maxLines > 0 ∧ s.lines + e.lines > c.maxLines) := by
+      intro ⟨a, b⟩
+      rcases h.lines with h0 | h0 <;> omega
+    have h2 : ¬ (c.maxDollars > 0 ∧ s.dollars + e.amount > c.maxDollars) := by
+      intro ⟨a, b⟩
+      rcases h.dollars with h0 | h0 <;> omega
+    simp only [Bool.or_eq_false_iff, Bool.and_eq_false_iff, decide_eq_false_iff_not]
+    constructor
+    · by_cases a : c.maxLines > 0
+      · right; intro b; exact h1 ⟨a, b⟩
+      · left; exact a
+    · by_cases a : c.maxDollars > 0
+      · right; intro b; exact h2 ⟨a, b⟩
+      · left; exact a
+  simp only [hov, Bool.false_eq_true, if_false]
+  refine ⟨h.out, ?_, ?_⟩
+  · rcases h.lines with h0 | h0
+    · exact Or.inl h0
+    · right; show s.lines + e.lines + rl ≤ c.maxLines; omega
+  · rcases h.dollars with h0 | h0
+    · exact Or.inl h0
+    · right; show s.dollars + e.amount + ra ≤ c.maxDollars; omega
+
+theorem sumAmt_nonneg (es : List Entry) (h : ∀ e ∈ es, 0 ≤ e.amount) : 0 ≤ sumAmt es := by
+  induction es with
+  | nil => simp [sumAmt]
+  | cons e es ih =>
+    have := ih (fun x hx => h x (by simp [hx]))
+    have := h e (by simp)
+    simp only [sumAmt, List.map_cons, List.sum_cons] at *
+    omega
+
+theorem foldl_stepEntry_nosplit (c : Cond) (k : HKey) : ∀ (es : List Entry) (s : CState) (rl : Nat) (ra : Int),
+    0 ≤ ra → (∀ e ∈ es, 0 ≤ e.amount) → NoSplit c s (sumLines es + rl) (sumAmt es + ra) →
+    NoSplit c (es.foldl (stepEntry c k) s) rl ra
+  | [], _, _, _, _, _, h => by simpa [sumLines, sumAmt] using h
+  | e :: es, s, rl, ra, hra, hes, h => by
+    rw [List.foldl_cons]
+    apply foldl_stepEntry_nosplit c k es _ rl ra hra (fun x hx => hes x (by simp [hx]))
+    apply stepEntry_nosplit c k s e (sumLines es + rl) (sumAmt es + ra)
+    · have := sumAmt_nonneg es (fun x hx => hes x (by simp [hx])); omega
+    · have e1 : sumLines (e :: es) + rl = e.lines + (sumLines es + rl) := by simp [sumLines]; omega
+      have e2 : sumAmt (e :: es) + ra = e.amount + (sumAmt es + ra) := by simp [sumAmt]; omega
+      rw [e1, e2] at h
+      exact h
+
+theorem closeBatch_nosplit (c : Cond) (k : HKey) (s : CState) (rl : Nat) (ra : Int) (h : NoSplit c s rl ra) :
+    NoSplit c (closeBatch k s) rl ra := by
+  unfold closeBatch
+  split
+  · exact h
+  · exact ⟨h.out, h.lines, h.dollars⟩
+
+theorem totalAmt_nonneg (bs : List OutBatch) (h : ∀ b ∈ bs, ∀ e ∈ b.entries, 0 ≤ e.amount) : 0 ≤ totalAmt bs := by
+  induction bs with
+  | nil => simp [totalAmt]
+  | cons b bs ih =>
+    have := ih (fun x hx => h x (by simp [hx]))
+    have := sumAmt_nonneg b.entries (h b (by simp))
+    simp only [totalAmt, List.map_cons, List.sum_cons] at *
+    omega
+
+theorem foldl_stepBatch_nosplit (c : Cond) : ∀ (bs : List OutBatch) (s : CState),
+    (∀ b ∈ bs, ∀ e ∈ b.entries, 0 ≤ e.amount) → NoSplit c s (countedLines bs) (totalAmt bs) →
+    NoSplit c (bs.foldl (stepBatch c) s) 0 0
+  | [], _, _, h => by simpa [countedLines, totalAmt] using h
+  | b :: bs, s, hpos, h => by
+    rw [List.foldl_cons]
+    apply foldl_stepBatch_nosplit c bs _ (fun x hx => hpos x (by simp [hx]))
+    unfold stepBatch
+    apply closeBatch_nosplit
+    apply foldl_stepEntry_nosplit c b.key b.entries _ (countedLines bs) (totalAmt bs)
+      (totalAmt_nonneg bs (fun x hx => hpos x (by simp [hx]))) (hpos b (by simp))
+    refine ⟨h.out, ?_, ?_⟩
+    · rcases h.lines with h0 | h0
+      · exact Or.inl h0
+      · right
+        show s.lines + 2 + (sumLines b.entries + countedLines bs) ≤ c.maxLines
+        simp only [countedLines, List.map_cons, List.sum_cons] at h0 ⊢
+        omega
+    · rcases h.dollars with h0 | h0
+      · exact Or.inl h0
+      · right
+        show s.dollars + (sumAmt b.entries + totalAmt bs) ≤ c.maxDollars
+        simp only [totalAmt, List.map_cons, List.sum_cons] at h0 ⊢
+        omega
+
+/-- **merge_single_file_when_unlimited**: if the route's accumulated batches fit under both limits (as the code counts
+lines) and no amount is negative, `convertToFiles` writes at most one file for the route -/
+theorem convertOne_single (c : Cond) (o : OutFile) (hpos : ∀ b ∈ o.batches, ∀ e ∈ b.entries, 0 ≤ e.amount)
+    (hl : c.maxLines = 0 ∨ 2 + countedLines o.batches ≤ c.maxLines)
+    (hd : c.maxDollars ≤ 0 ∨ totalAmt o.batches ≤ c.maxDollars) :
+    (convertOne c o).length ≤ 1 := by
+  unfold convertOne
+  have h0 : NoSplit c ⟨[], [], [], 2, 0⟩ (countedLines o.batches) (totalAmt o.batches) :=
+    ⟨rfl, hl, by rcases hd with h | h; exact Or.inl h; right; simpa using h⟩
+  have h := foldl_stepBatch_nosplit c o.batches _ hpos h0
+  unfold closeFile
+  split
+  · simp [h.out]
+  · simp [h.out]
+
+end Ach.Merge
+
+namespace Ach.Merge
+
 /-! ## the ordered map stays strictly sorted by trace -/
 
 def StrictAsc : List Entry → Prop
@@ -494,3 +746,150 @@ theorem addFiles_sorted : ∀ (fs : List InFile) (st : List OutFile), (∀ o ∈
     simpa [addFiles] using this
 
 end Ach.Merge
+
+namespace Ach.Merge
+
+/-! ## equal headers share a batch unless trace numbers collide -/
+
+/-- a later batch with the same header only holds entries whose trace number the earlier batch already has -/
+def Spill (a b : OutBatch) : Prop := a.key = b.key → ∀ x ∈ b.entries, contains x.trace a.entries = true
+
+theorem contains_insertSorted (t : Nat) (e : Entry) (es : List Entry) :
+    contains t (insertSorted e es) = (decide (e.trace = t) || contains t es) := by
+  induction es with
+  | nil => simp [insertSorted, contains]
+  | cons x xs ih =>
+    unfold insertSorted
+    split
+    · simp [contains]
+    · split
+      · rename_i h1 h2
+        simp only [contains, List.any_cons] at *
+        rw [h2]
+        cases decide (x.trace = t) <;> simp
+      · simp only [contains, List.any_cons] at ih ⊢
+        rw [ih]
+        cases decide (x.trace = t) <;> cases decide (e.trace = t) <;> simp
+
+theorem mem_insertSorted (x e : Entry) (es : List Entry) (h : x ∈ insertSorted e es) : x = e ∨ x ∈ es := by
+  induction es with
+  | nil => simp [insertSorted] at h; exact Or.inl h
+  | cons y ys ih =>
+    unfold insertSorted at h
+    split at h
+    · simp at h; rcases h with h | h | h
+      · exact Or.inl h
+      · exact Or.inr (by simp [h])
+      · exact Or.inr (by simp [h])
+    · split at h
+      · simp at h; rcases h with h | h
+        · exact Or.inl h
+        · exact Or.inr (by simp [h])
+      · simp at h; rcases h with h | h
+        · exact Or.inr (by simp [h])
+        · rcases ih h with h' | h'
+          · exact Or.inl h'
+          · exact Or.inr (by simp [h'])
+
+/-- what `place` can put after a batch `a` that did not take the entry -/
+theorem place_spill (k : HKey) (e : Entry) (a : OutBatch) (hk : a.key = k → contains e.trace a.entries = true) :
+    ∀ (bs : List OutBatch), (∀ b ∈ bs, Spill a b) → ∀ b ∈ place k e bs, Spill a b := by
+  intro bs
+  induction bs with
+  | nil =>
+    intro _ b hb
+    simp [place] at hb
+    subst hb
+    intro hkey x hx
+    simp at hx
+    subst hx
+    exact hk hkey
+  | cons y ys ih =>
+    intro h b hb
+    unfold place at hb
+    split at hb
+    · rename_i hc
+      simp only [Bool.and_eq_true, decide_eq_true_eq] at hc
+      simp only [List.mem_cons] at hb
+      rcases hb with hb | hb
+      · subst hb
+        intro hkey x hx
+        rcases mem_insertSorted x e y.entries hx with hxe | hxy
+        · subst hxe; exact hk (hkey.trans hc.1)
+        · exact h y (by simp) hkey x hxy
+      · exact h b (by simp [hb])
+    · simp only [List.mem_cons] at hb
+      rcases hb with hb | hb
+      · subst hb; exact h b (by simp)
+      · exact ih (fun b' hb' => h b' (by simp [hb'])) b hb
+
+theorem place_pairwise (k : HKey) (e : Entry) : ∀ (bs : List OutBatch), bs.Pairwise Spill → (place k e bs).Pairwise Spill := by
+  intro bs
+  induction bs with
+  | nil => intro _; simp [place]
+  | cons y ys ih =>
+    intro h
+    rw [List.pairwise_cons] at h
+    unfold place
+    split
+    · rename_i hc
+      rw [List.pairwise_cons]
+      refine ⟨?_, h.2⟩
+      intro b hb hkey x hx
+      have := h.1 b hb hkey x hx
+      rw [contains_insertSorted]
+      simp [this]
+    · rename_i hc
+      rw [List.pairwise_cons]
+      refine ⟨?_, ih h.2⟩
+      apply place_spill k e y _ ys h.1
+      intro hkey
+      simp only [Bool.and_eq_true, decide_eq_true_eq, Bool.not_eq_true', not_and, Bool.not_eq_false] at hc
+      exact hc hkey
+
+theorem placeAll_pairwise (k : HKey) : ∀ (es : List Entry) (bs : List OutBatch), bs.Pairwise Spill → (placeAll k es bs).Pairwise Spill
+  | [], _, h => h
+  | e :: es, bs, h => by
+    unfold placeAll
+    rw [List.foldl_cons]
+    exact placeAll_pairwise k es _ (place_pairwise k e bs h)
+
+theorem addBatches_pairwise : ∀ (ibs : List InBatch) (bs : List OutBatch), bs.Pairwise Spill → (addBatches ibs bs).Pairwise Spill
+  | [], _, h => h
+  | ib :: ibs, bs, h => by
+    unfold addBatches
+    rw [List.foldl_cons]
+    exact addBatches_pairwise ibs _ (placeAll_pairwise ib.key ib.entries bs h)
+
+theorem addFile_pairwise (f : InFile) : ∀ (st : List OutFile), (∀ o ∈ st, o.batches.Pairwise Spill) →
+    ∀ o ∈ addFile f st, o.batches.Pairwise Spill := by
+  intro st
+  induction st with
+  | nil =>
+    intro _ o ho
+    simp [addFile] at ho
+    subst ho
+    exact addBatches_pairwise f.batches [] List.Pairwise.nil
+  | cons x xs ih =>
+    intro h o ho
+    unfold addFile at ho
+    split at ho
+    · simp only [List.mem_cons] at ho
+      rcases ho with ho | ho
+      · subst ho; exact addBatches_pairwise f.batches _ (h x (by simp))
+      · exact h o (by simp [ho])
+    · simp only [List.mem_cons] at ho
+      rcases ho with ho | ho
+      · subst ho; exact h o (by simp)
+      · exact ih (fun o' ho' => h o' (by simp [ho'])) o ho
+
+theorem addFiles_pairwise : ∀ (fs : List InFile) (st : List OutFile), (∀ o ∈ st, o.batches.Pairwise Spill) →
+    ∀ o ∈ addFiles fs st, o.batches.Pairwise Spill
+  | [], _, h => h
+  | f :: fs, st, h => by
+    unfold addFiles
+    rw [List.foldl_cons]
+    exact addFiles_pairwise fs _ (addFile_pairwise f st h)
+
+end Ach.Merge
+
